@@ -781,3 +781,79 @@ def size(e):
     if isinstance(e, list):
         return sum(size(x) for x in e)
     return 0
+
+
+# --------------------------------------------------------------------------------------
+# Late-binding / forcing-order templates with a closed-form expected result
+# --------------------------------------------------------------------------------------
+
+def late_binding_cases(rng, n):
+    """Programs where an object is used (forced) before and after being extended: `self` must denote the final
+    combined object each time, asserts are those of the combination. Returns [(ast, expected)] with
+    expected = ('ok', python value) | ('err', kind, message)."""
+    N = lambda x: ('num', float(x))
+    V = lambda x: ('var', x)
+    S = lambda x: ('str', x)
+    out = []
+    for _ in range(n):
+        kind = rng.randrange(6)
+        v1, v2, v3 = rng.sample([1, 2, 3, 5, 7, 10], 3)
+        f = rng.choice(['name', 'k1', 'a'])
+        g = rng.choice(['greeting', 'g', 'b'])
+        if kind == 0:
+            # string field depending on self, forced on the base first (or last)
+            s1, s2, s3 = rng.sample(['x', 'y', 'zz', 'é', ''], 3)
+            base = ('object', [('fix', f, False, 'd', None, S(s1)), ('fix', g, False, rng.choice('dh'), None, ('binary', 'add', S('hi '), ('field', ('self',), f)))])
+            items = [(('field', V('base'), g), 'hi ' + s1),
+                     (('field', ('binary', 'add', V('base'), ('object', [('fix', f, False, 'd', None, S(s2))])), g), 'hi ' + s2),
+                     (('field', ('objext', V('base'), [('fix', f, False, 'd', None, S(s3))]), g), 'hi ' + s3)]
+            rng.shuffle(items)
+            items.append((('field', V('base'), g), 'hi ' + s1))
+            out.append((('local', [('base', None, base)], ('array', [i[0] for i in items])), ('ok', [i[1] for i in items])))
+        elif kind == 1:
+            # the base is manifested whole first, then extended
+            base = ('object', [('fix', f, False, 'd', None, N(v1)), ('fix', g, False, 'd', None, ('binary', 'mul', ('field', ('self',), f), N(2)))])
+            ext = ('binary', 'add', V('base'), ('object', [('fix', f, False, 'd', None, N(v2))]))
+            order = rng.random() < 0.5
+            arr = [V('base'), ext] if order else [ext, V('base')]
+            exp = [{f: v1, g: 2 * v1}, {f: v2, g: 2 * v2}]
+            out.append((('local', [('base', None, base)], ('array', arr)), ('ok', [dict(sorted(e.items())) for e in (exp if order else exp[::-1])])))
+        elif kind == 2:
+            # super chain: the middle layer's value depends on what is below it, in each combination
+            a = ('object', [('fix', f, False, 'd', None, N(v1))])
+            b = ('object', [('fix', f, True, 'd', None, N(v2))])
+            prog = ('local', [('a', None, a), ('b', None, b), ('ab', None, ('binary', 'add', V('a'), V('b')))],
+                    ('array', [('field', V('ab'), f), ('field', ('binary', 'add', V('ab'), V('b')), f),
+                               ('field', ('binary', 'add', ('object', [('fix', f, False, 'd', None, N(v3))]), V('b')), f), ('field', V('ab'), f)]))
+            out.append((prog, ('ok', [v1 + v2, v1 + 2 * v2, v3 + v2, v1 + v2])))
+        elif kind == 3:
+            # an assert that holds for the operands alone but not for the combination, operands forced first
+            a = ('object', [('fix', 'x', False, 'd', None, N(v1)), ('assert', ('binary', 'gt', ('field', ('self',), 'x'), N(0)), S('x must stay positive'))])
+            b = ('object', [('fix', 'y', False, 'd', None, N(v2))])
+            c = ('object', [('fix', 'x', False, 'd', None, ('unary', 'minus', N(v3)))])
+            how = rng.randrange(3)
+            if how == 0:
+                body = ('array', [('field', V('ab'), 'y'), ('field', V('c'), 'x'), ('field', ('binary', 'add', V('ab'), V('c')), 'y')])
+            elif how == 1:
+                body = ('array', [V('ab'), V('c'), ('binary', 'add', V('ab'), V('c'))])
+            else:
+                body = ('field', ('binary', 'add', V('ab'), V('c')), 'y')
+            prog = ('local', [('a', None, a), ('b', None, b), ('c', None, c), ('ab', None, ('binary', 'add', V('a'), V('b')))], body)
+            out.append((prog, ('err', 'AssertFailed', 'x must stay positive')))
+        elif kind == 4:
+            # the same assert still passes when the combination keeps it true, and `$` follows the combination
+            a = ('object', [('fix', 'x', False, 'd', None, N(v1)), ('fix', 'top', False, 'h', None, ('field', ('dollar',), 'x')),
+                            ('assert', ('binary', 'gt', ('field', ('self',), 'x'), N(0)), None)])
+            prog = ('local', [('a', None, a)], ('array', [('field', V('a'), 'top'),
+                                                       ('field', ('binary', 'add', V('a'), ('object', [('fix', 'x', False, 'd', None, N(v2))])), 'top'),
+                                                       ('field', V('a'), 'top')]))
+            out.append((prog, ('ok', [v1, v2, v1])))
+        else:
+            # object local and method depending on self, reused across two extensions
+            a = ('object', [('local', 'l', None, ('binary', 'add', ('field', ('self',), 'x'), N(1))), ('fix', 'x', False, 'd', None, N(v1)),
+                            ('fix', 'm', False, 'h', [('k', None)], ('binary', 'add', V('l'), V('k')))])
+            prog = ('local', [('a', None, a)], ('array', [('call', ('field', V('a'), 'm'), [('p', N(10))], False),
+                                                       ('call', ('field', ('objext', V('a'), [('fix', 'x', False, 'd', None, N(v2))]), 'm'), [('p', N(20))], False),
+                                                       ('call', ('field', V('a'), 'm'), [('p', N(30))], False)]))
+            out.append((prog, ('ok', [v1 + 11, v2 + 21, v1 + 31])))
+    return out
